@@ -15,6 +15,7 @@ mod c11;
 mod c15;
 mod c09;
 mod c06;
+mod c13;
 
 fn main() {
     std::panic::set_hook(Box::new(|_| {}));
@@ -40,6 +41,8 @@ fn main() {
         "c15" => c15::run(tier, seed, &mut out),
         "c09" => c09::run(tier, seed, &mut out),
         "c06" => c06::run(tier, seed, &mut out),
+        "c13" => c13::run(tier, seed, &mut out),
+        "c14" => c13::run_c14(tier, seed, &mut out),
         _ => {
             eprintln!("unknown family {}", fam);
             std::process::exit(2);
